@@ -13,7 +13,7 @@ use std::collections::HashMap;
 use std::sync::Arc;
 
 pub fn count(tier: Tier) -> u64 {
-    tier.pick(360, 2400)
+    tier.pick(360, 8000)
 }
 
 pub fn gen(seed: u64, tier: Tier, k: u64) -> Value {
